@@ -1629,7 +1629,11 @@ def determine_quote_strategy(s):
 
 
 def escape_str_for_quote(use_quote, s):
-    escaped_with_quotes = repr(s)
+    # Use the built-in repr even if a subclass of str/bytes overrides __repr__.
+    if isinstance(s, str):
+        escaped_with_quotes = str.__repr__(s)
+    else:
+        escaped_with_quotes = bytes.__repr__(s)
     repr_used_quote = escaped_with_quotes[-1]
 
     # string may have a prefix
